@@ -16,7 +16,7 @@ import subprocess
 import tempfile
 import time
 
-from .runner import VERIF, REPO, WORK, sh, load_known
+from .runner import VERIF, REPO, WORK, sh, load_known, copy_lock
 
 SKIP_CALLS = [r'into_token_stream', r'as Spanned>::span', r'Argument::<.*>::new_display', r'Arguments::<.*>::new', r'^format\b', r'alloc::fmt::format', r'std::fmt::format', r'must_use',
               r'syn::Error::new', r'Error::new']
@@ -27,8 +27,8 @@ def dump_mir():
     tmp = tempfile.mkdtemp(prefix='educe_mir_')
     try:
         shutil.copytree(os.path.join(REPO, 'src'), os.path.join(tmp, 'src'))
-        for fn in ('Cargo.toml', 'Cargo.lock'):
-            shutil.copy(os.path.join(REPO, fn), os.path.join(tmp, fn))
+        shutil.copy(os.path.join(REPO, 'Cargo.toml'), os.path.join(tmp, 'Cargo.toml'))
+        copy_lock(tmp)
         rc, out = sh('cargo +nightly rustc --offline --lib --target-dir ' + os.path.join(WORK, 'target-mir') + ' -- -Zunpretty=mir -C debug-assertions=off 2>mir.err > mir.txt',
                      cwd=tmp, timeout=1800)
         txt = open(os.path.join(tmp, 'mir.txt')).read() if os.path.exists(os.path.join(tmp, 'mir.txt')) else ''
@@ -308,7 +308,7 @@ def replay(trait, s):
     try:
         os.makedirs(os.path.join(tmp, 'src'))
         open(os.path.join(tmp, 'Cargo.toml'), 'w').write(f'[package]\nname = "rp"\nversion = "0.0.0"\nedition = "2021"\n[dependencies]\neduce = {{ path = "{REPO}" }}\n[workspace]\n')
-        shutil.copy(os.path.join(REPO, 'Cargo.lock'), os.path.join(tmp, 'Cargo.lock'))
+        copy_lock(tmp)
         src = f'use educe::Educe;\n#[derive(Educe)]\n#[educe({s})]\npub union U {{ a: u8 }}\n'
         open(os.path.join(tmp, 'src', 'lib.rs'), 'w').write(src)
         rc, out = sh(['cargo', 'check', '--offline', '--target-dir', os.path.join(WORK, 'target-native')], cwd=tmp, timeout=900)
@@ -404,7 +404,7 @@ def main(tier, seed, keep=False):
                 rd = os.path.join(VERIF, 'replays', 'C17', f'{trait}_{len(violations)}')
                 os.makedirs(os.path.join(rd, 'src'), exist_ok=True)
                 open(os.path.join(rd, 'Cargo.toml'), 'w').write(f'[package]\nname = "rp"\nversion = "0.0.0"\nedition = "2021"\n[dependencies]\neduce = {{ path = "{REPO}" }}\n[workspace]\n')
-                shutil.copy(os.path.join(REPO, 'Cargo.lock'), os.path.join(rd, 'Cargo.lock'))
+                copy_lock(rd)
                 open(os.path.join(rd, 'src', 'lib.rs'), 'w').write(src)
                 open(os.path.join(rd, 'REPLAY.md'), 'w').write(f'{name}\npath: {desc}\nsolver model: S = {s!r}\nreplay: cargo check --offline  (expected: proc-macro derive panicked)\n\n{out}\n')
                 violations.append(dict(what=f'{name}: {desc}; #[educe({s})] on a union makes the derive panic', replay=rd))
